@@ -301,3 +301,16 @@ def extract(repo):
     params["generated_files"] = ["lean/RlibModel/Generated/RandSrc.lean", "lean/RlibModel/Generated/LcgSrc.lean"]
     params["generated_files_rewritten"] = [bool(i1.get("rewritten")), bool(i2.get("rewritten"))]
     return params, problems + p1 + p2
+
+
+_extra_engine = extra
+
+
+def extra(ctx):
+    """The engine's own extra steps, then a plain-words verdict on the second tie when the src_* proofs did not build."""
+    out = list(_extra_engine(ctx))
+    import rs2lean
+    fns = ctx["params"].get("translated_functions", [])
+    ok = "next_raw" in fns and any(f.startswith("Range_") for f in fns)
+    return out + rs2lean.tie_findings(["RlibModel/Generated/RandSrc.lean", "RlibModel/Generated/LcgSrc.lean"],
+                                      "RlibModel/Lemmas/RandSrc.lean", ok, "rlib/rand/src/{randomable.rs,lcg.rs}")
